@@ -76,9 +76,20 @@ func genVariantDef(ab []byte, mask int, style string) ([]byte, error) {
 			def["on-close"] = []interface{}{map[string]interface{}{"operation": "channel.write", "input": "qqq"}, map[string]interface{}{"operation": "channel.return"}}
 		}
 	}
+	if strings.HasPrefix(style, "generic-base") {
+		// the DEFAULT section declares a generic driver with its own open/close steps; a variant that
+		// does not restate the driver type must stay generic
+		def["driver-type"] = "generic"
+		def["on-open"] = []interface{}{map[string]interface{}{"operation": "channel.write", "input": "bbb"}, map[string]interface{}{"operation": "channel.return"}}
+		def["on-close"] = []interface{}{map[string]interface{}{"operation": "channel.write", "input": "ccc"}, map[string]interface{}{"operation": "channel.return"}}
+	}
 	v := map[string]interface{}{}
 	for i, s := range sections {
 		if mask&(1<<i) == 0 {
+			continue
+		}
+		if style == "generic-base-restated" && s == "driver-type" {
+			v[s] = "generic"
 			continue
 		}
 		if style == "empty-onx" && strings.Contains(s, "on-") {
@@ -344,7 +355,7 @@ func runGenVariants(name string) mon.Result {
 		return *v
 	}
 	obs := map[string]int64{}
-	for _, style := range []string{"", "renamed", "empty-onx"} {
+	for _, style := range []string{"", "renamed", "empty-onx", "generic-base", "generic-base-restated"} {
 		for mask := 0; mask < 1<<len(sections); mask++ {
 			gb, err := genVariantDef(ab, mask, style)
 			if err != nil {
@@ -359,6 +370,19 @@ func runGenVariants(name string) mon.Result {
 				return *v
 			}
 			obs["generated_variants_merged"]++
+			if strings.HasPrefix(style, "generic-base") {
+				if mask == 0 {
+					// the generic base itself, without variant
+					if _, v := checkVariantLoad(label+"/base", gb, gb, "", nil, false); v != nil {
+						return *v
+					}
+				}
+				if mask&1 == 0 {
+					obs["variants_of_generic_base_not_restating_driver_type"]++
+				} else {
+					obs["variants_of_generic_base_stating_driver_type"]++
+				}
+			}
 			if style == "empty-onx" {
 				for _, b := range []int{2, 3, 6, 7} {
 					if mask&(1<<b) != 0 {
@@ -538,6 +562,20 @@ func gen(tier string, seed int64) []mon.Case {
 			}
 			dyn(n+"/generated-renamed", Dyn{Source: "genvariant", Renamed: true, Platform: n, Start: rl[(k+1)%len(rl)], From: renamedPrefix + canon[n].Default,
 				Targets: rotate(rl, k+1), CloseAt: rl[k%len(rl)]})
+			// generic base: variants that do not / do restate the driver type, short open/close session
+			gms := []struct {
+				style string
+				mask  int
+			}{{"generic-base", 1 << 1}, {"generic-base", 1<<3 | 1<<1}, {"generic-base-restated", 1<<0 | 1<<2}, {"generic-base", 0}}
+			for gi, gm := range gms {
+				if k > 0 && gi != (k+len(n))%len(gms) {
+					continue
+				}
+				d := Dyn{Source: "genvariant", Platform: n, GenStyle: gm.style, GenMask: gm.mask}
+				d.Kind = "generic"
+				d.Seg, d.NL, d.ReadSize = genSeg(r)
+				add(fmt.Sprintf("c17/generic/%s/%s.%02x#%02d", n, gm.style, gm.mask, k), d)
+			}
 			// generated variant that defines the four step sections as EMPTY lists over a base with steps
 			dyn(n+"/generated-empty-onx", Dyn{Source: "genvariant", GenStyle: "empty-onx", GenMask: 0xCC, Platform: n, Start: lv[(k+1)%len(lv)], From: canon[n].Default,
 				Targets: rotate(lv, k), CloseAt: lv[(k+1)%len(lv)]})
@@ -636,6 +674,11 @@ func run(c mon.Case) mon.Result {
 		Kind string `json:"kind"`
 	}
 	c.Decode(&k)
+	if k.Kind == "generic" {
+		var d Dyn
+		c.Decode(&d)
+		return RunGeneric(d)
+	}
 	if k.Kind == "custom" || k.Kind == "two" {
 		var d Dyn
 		c.Decode(&d)
@@ -701,6 +744,7 @@ func init() {
 			"customised-levels sessions: the definition's own level objects get an alternative appended to their patterns in place (the canonical prompt with the hostname replaced by one of 4 hostile-but-legal names), refreshed by UpdatePrivileges() on the same driver or handed to a second driver through options.WithPrivilegeLevels after a first driver used the same map; judged by the ordinary oracle (joined pattern and per-level patterns consistent, on-open/on-close seen, all pairs reached)",
 			"two-drivers sessions: every option list is append(p.AsOptions(), user options) on ONE *Platform and all lists exist before any driver is built (1 or 3 user options per list; getter calls interleaved); each driver must carry its own transport / default level / failure strings / port and drive its own device; that AsOptions reflects later edits of the Platform's fields is not judged (not stated by the property)",
 			"generated variants define the on-open/on-close/network-on-open/network-on-close sections either with steps or as an explicitly empty list (= defined: the base's steps must go); for the other sections only non-empty values are generated, a present-but-empty driver type / failure list / level map is outside the checked merge semantics",
+			"generic base: generated definitions whose default section declares driver-type generic with own open/close steps; variants that do not state the type must stay generic, those that state generic/network get that type (all 256 section subsets, static) and a short session on the generic driver (Open with the merged on-open steps, one command, Close with the merged on-close steps)",
 			"trailing blanks: per platform the device also prints each prompt with 0, 1 and 2 trailing blanks wherever the level's own pattern accepts that spelling; the joined pattern must find the prompt in it and the session must run as usual",
 			"a timeout counts only if every generated byte had been delivered and the load canary is healthy",
 		},
